@@ -9,6 +9,7 @@ from ..ctl import num, val, is_exc, dec_str
 from ..gen import random_plan, rand_fraction, enc_amount
 from ..models import si_table as SI
 from ..models.world import predefined_world
+from ..ops import computed
 from ..oracle import brief
 
 RULE = ("pairs constructed to be equal by the model: quantities across every "
@@ -94,6 +95,7 @@ def run(chk, R, tier, seed):
                                      (x1, s1), "quantity-twins"))
                     else:
                         add(pair_sub(chk, "quantity-cross-unit",
+                                     computed(rng, w, x1, s1) or
                                      Q(num(x1), s1), Q(num(x2), s2),
                                      "%s %s and %s %s" % (x1, s1, x2, s2),
                                      "quantity-cross-unit"))
@@ -291,7 +293,8 @@ def run(chk, R, tier, seed):
                         v = rand_fraction(rng, small=True)
                         subs.append(pair_sub(
                             chk, "world-quantity",
-                            Q(num(v / ww.units[s1].factor), s1),
+                            computed(rng, ww, v / ww.units[s1].factor, s1)
+                            or Q(num(v / ww.units[s1].factor), s1),
                             Q(num(v / ww.units[s2].factor), s2),
                             "value %s in %s and in %s" % (v, s1, s2),
                             "quantity-cross-unit",
